@@ -209,6 +209,16 @@ def bisect(ctx, rep):
                     verdict = 'bad: the exit looks at the narrowest / average bracket: lanes that have not converged are cut off'
                 elif const_value(right) is not None and isinstance(const_value(right), (int, float)) and const_value(right) > 1e-8:
                     verdict = f'bad: the exit compares the width with {const_value(right)}, not with the tolerance'
+        tt = t
+        while isinstance(tt, ast.UnaryOp):
+            tt = tt.operand
+        if verdict == 'unknown' and isinstance(tt, ast.Call) and call_name(tt) in ('allclose', 'isclose', 'array_equal', 'array_equiv') \
+                and len([a for a in tt.args if isinstance(a, ast.Name) and al.get(a.id) in (lo, hi)]) >= 2:
+            rtol = kwarg(tt, 'rtol', 2)
+            if call_name(tt) in ('array_equal', 'array_equiv'):
+                verdict = 'bad: the exit requires the two ends to be exactly equal, which bisection never reaches in general'
+            elif rtol is None or const_value(rtol) != 0:
+                verdict = 'bad: the exit uses a relative closeness test (rtol): for large |x| it stops while the bracket is still wider than the tolerance'
         if verdict == 'good':
             rep.ok('D5.tol', fn, ex, 'stops when the widest bracket is below tol', construct='exit test')
         elif verdict.startswith('bad'):
